@@ -171,6 +171,17 @@ class Check:
         if rc != 0 or not stats:
             self.log("executor %s failed rc=%s\n%s" % (exe, rc, out[-3000:]))
             self.corr["components"][name] = {"error": "executor failed", "rc": rc}
+            hang = re.search(r"^HXHANG .*? inside history: (.*)$", out, flags=re.M)
+            if hang:
+                # the executor's watchdog: the implementation stopped making progress (a lock it never
+                # gets, a wait that never ends) inside this history - a concrete failing input
+                path = self.write_replay({
+                    "kind": "property-violation-on-implementation", "component": name,
+                    "failing_clause": "no-progress (the implementation hangs on this history)",
+                    "cases": [hang.group(1).strip()], "detail": hang.group(0)})
+                self.violations.append((path, False))
+                self.log("executor %s: implementation hangs on: %s" % (exe, hang.group(1)[:600]))
+                return None
             self.broken_correspondence(name, "executor %s exited %s: %s" % (exe, rc, out[-1500:]), [])
             return None
         cases = os.path.join(d, comp + ".cases")
